@@ -102,6 +102,9 @@ pub enum EvAct {
     Key(KeyCode, KeyState),
     Ctrl(HandleControl),
     Layout(u8),
+    /// an operation on another stage of a Keyboard that must not influence key-event decoding:
+    /// 0 = add_word with a parity error, 1 = add_byte(0xE0) (a pending scancode prefix), 2 = clear()
+    Noise(u8),
 }
 impl EvAct {
     pub fn op(&self) -> Op {
@@ -109,6 +112,9 @@ impl EvAct {
             EvAct::Key(k, s) => Op::Key(*k, *s),
             EvAct::Ctrl(m) => Op::Ctrl(*m),
             EvAct::Layout(t) => Op::Layout(*t),
+            EvAct::Noise(0) => Op::Word(crate::props::frame::encode(0x1C) ^ (1 << 9)),
+            EvAct::Noise(1) => Op::Byte(0xE0),
+            EvAct::Noise(_) => Op::Clear,
         }
     }
 }
@@ -119,6 +125,9 @@ pub trait KeyDev: Clone + PartialEq + Debug + Send + Sync + 'static {
     fn key(&mut self, k: KeyCode, s: KeyState) -> Option<DecodedKey>;
     fn set_ctrl(&mut self, m: HandleControl);
     fn change_layout(&mut self, _tag: u8) {}
+    /// number of noise operations this device offers (operations on other stages)
+    const NOISE: u8 = 0;
+    fn noise(&mut self, _i: u8) {}
     fn mods(&self) -> Option<u16>;
     fn mode(&self) -> HandleControl;
     fn component(mode: HandleControl) -> String;
@@ -160,6 +169,18 @@ macro_rules! kb_keydev {
             fn set_ctrl(&mut self, m: HandleControl) {
                 self.set_ctrl_handling(m)
             }
+            const NOISE: u8 = 3;
+            fn noise(&mut self, i: u8) {
+                match i {
+                    0 => {
+                        let _ = self.add_word(crate::props::frame::encode(0x1C) ^ (1 << 9));
+                    }
+                    1 => {
+                        let _ = self.add_byte(0xE0);
+                    }
+                    _ => self.clear(),
+                }
+            }
             fn mods(&self) -> Option<u16> {
                 Some(bits_from_mods(self.get_modifiers()))
             }
@@ -184,6 +205,14 @@ pub struct EvSys<D: KeyDev> {
     pub check_mods: bool,
     pub check_ret: bool,
     pub _d: std::marker::PhantomData<D>,
+}
+
+pub fn ev_alphabet_noise(layout_change: bool, noise: u8) -> Vec<EvAct> {
+    let mut v = ev_alphabet(layout_change);
+    for i in 0..noise {
+        v.push(EvAct::Noise(i));
+    }
+    v
 }
 
 pub fn ev_alphabet(layout_change: bool) -> Vec<EvAct> {
@@ -248,6 +277,14 @@ impl<D: KeyDev> Sys for EvSys<D> {
                         expected: "()".into(),
                         observed: out.clone(),
                     });
+                }
+            }
+            EvAct::Noise(i) => {
+                let r = catch_unwind(AssertUnwindSafe(|| d.noise(*i)));
+                ns = (m, modeb, tag);
+                out = if r.is_ok() { "()".into() } else { "PANIC".into() };
+                if r.is_err() {
+                    bad = Some(Bad { key: format!("ev/noise{}/panic", i), text: "an operation on another stage panicked".into(), expected: "()".into(), observed: "PANIC".into() });
                 }
             }
             EvAct::Layout(t) => {
@@ -333,7 +370,7 @@ impl<D: KeyDev> Sys for EvSys<D> {
 
 fn run_evsys<D: KeyDev>(ctx: &mut Ctx, label: &str, check_mods: bool, check_ret: bool, layout_change: bool, init_mode: HandleControl) -> u64 {
     let sys = Arc::new(EvSys::<D> {
-        alphabet: ev_alphabet(layout_change && D::HAS_LAYOUT_CHANGE),
+        alphabet: ev_alphabet_noise(layout_change && D::HAS_LAYOUT_CHANGE, if check_ret { D::NOISE } else { 0 }),
         init_mode,
         check_mods,
         check_ret,
@@ -800,13 +837,13 @@ where
                     let _ = d.process_keyevent(KeyEvent::new(*k, *s));
                 }
                 EvAct::Ctrl(m) => d.set_ctrl_handling(*m),
-                EvAct::Layout(_) => {}
+                EvAct::Layout(_) | EvAct::Noise(_) => {}
             })
             .is_ok();
             match a {
                 EvAct::Key(k, s) => r.0 = rmods_step(r.0, *k, *s),
                 EvAct::Ctrl(m) => r.1 = *m,
-                EvAct::Layout(_) => {}
+                EvAct::Layout(_) | EvAct::Noise(_) => {}
             }
             ok
         };
@@ -930,12 +967,14 @@ fn c14_two_press(ctx: &mut Ctx, tags: u8) {
                 }
                 EvAct::Ctrl(m) => d.set_ctrl_handling(*m),
                 EvAct::Layout(t) => d.change_layout(Echo(*t)),
+                EvAct::Noise(_) => {}
             })
             .map(|_| {
                 match a {
                     EvAct::Key(k, s) => r.0 = rmods_step(r.0, *k, *s),
                     EvAct::Ctrl(m) => r.1 = mode_bit(*m) as u8,
                     EvAct::Layout(t) => r.2 = *t,
+                    EvAct::Noise(_) => {}
                 }
                 true
             })
